@@ -517,8 +517,19 @@ func buildP2(d *ClaimsDesc, canonical string) (*psatoken.P2Claims, error) {
 	return c, nil
 }
 
-// build materialises a description.
-func (d *ClaimsDesc) build() (psatoken.IClaims, error) {
+// build materialises a description. A panic of library code underneath (the
+// container codec) makes the description unbuildable, it does not take the
+// simulator down.
+func (d *ClaimsDesc) build() (c psatoken.IClaims, err error) {
+	defer func() {
+		if r := recover(); r != nil {
+			c, err = nil, fmt.Errorf("panic while building: %v", r)
+		}
+	}()
+	return d.buildRaw()
+}
+
+func (d *ClaimsDesc) buildRaw() (psatoken.IClaims, error) {
 	switch d.Prof {
 	case "p1":
 		return buildP1(d, psatoken.Profile1Name)
@@ -553,7 +564,12 @@ func (d *ClaimsDesc) build() (psatoken.IClaims, error) {
 // buildViaSetters materialises a description through the public constructor
 // and setters only (fails where a setter refuses). The profile claim is
 // whatever NewClaims puts there.
-func (d *ClaimsDesc) buildViaSetters() (psatoken.IClaims, error) {
+func (d *ClaimsDesc) buildViaSetters() (out psatoken.IClaims, oerr error) {
+	defer func() {
+		if r := recover(); r != nil {
+			out, oerr = nil, fmt.Errorf("panic while building: %v", r)
+		}
+	}()
 	c, err := psatoken.NewClaims(profileNameOf(d.Prof))
 	if err != nil {
 		return nil, err
